@@ -34,15 +34,15 @@ ENTRY_QUERY = '''
        AND e.lexicon_rowid = ?
 '''
 # forms don't have reliable ids, so also consider rank; this depends
-# on each form having a unique rank, and this doesn't work for lexicon
-# extensions
+# on each form having a unique rank among the forms its lexicon gives
+# to the entry (a lexicon extension ranks its new forms separately)
 FORM_QUERY = '''
     SELECT f.rowid
       FROM forms AS f
       JOIN entries AS e ON f.entry_rowid = e.rowid
      WHERE e.id = ?
        AND e.lexicon_rowid = ?
-       AND (f.id = ? OR f.rank = ?)
+       AND (f.id = ? OR (f.rank = ? AND f.lexicon_rowid = ?))
 '''
 SENSE_QUERY = '''
     SELECT s.rowid
@@ -599,7 +599,7 @@ def _insert_pronunciations(
     progress.set(status='Pronunciations')
     query = f'INSERT INTO pronunciations VALUES (({FORM_QUERY}),?,?,?,?,?)'
     for batch in _batch(entries):
-        prons: list[tuple[str, int, Optional[str], int,
+        prons: list[tuple[str, int, Optional[str], int, int,
                           str, Optional[str], Optional[str],
                           bool, Optional[str]]] = []
         for entry in batch:
@@ -608,7 +608,7 @@ def _insert_pronunciations(
             if entry.get('lemma'):
                 for p in entry['lemma'].get('pronunciations', []):
                     prons.append(
-                        (eid, lid, None, 0,
+                        (eid, lid, None, 0, lid,
                          p['text'], p.get('variety'), p.get('notation'),
                          p.get('phonemic', True), p.get('audio'))
                     )
@@ -617,7 +617,7 @@ def _insert_pronunciations(
                 rank = -1 if _is_external(form) else i
                 for p in form.get('pronunciations', []):
                     prons.append(
-                        (eid, lid, form.get('id'), rank,
+                        (eid, lid, form.get('id'), rank, lexid,
                          p['text'], p.get('variety'), p.get('notation'),
                          p.get('phonemic', True), p.get('audio'))
                     )
@@ -635,19 +635,20 @@ def _insert_tags(
     progress.set(status='Word Form Tags')
     query = f'INSERT INTO tags VALUES (({FORM_QUERY}),?,?)'
     for batch in _batch(entries):
-        tags: list[tuple[str, int, Optional[str], int, str, str]] = []
+        tags: list[tuple[str, int, Optional[str], int, int, str, str]] = []
         for entry in batch:
             eid = entry['id']
             lid = lexidmap.get(eid, lexid)
             if entry.get('lemma'):
                 for tag in entry['lemma'].get('tags', []):
-                    tags.append((eid, lid, None, 0, tag['text'], tag['category']))
+                    tags.append((eid, lid, None, 0, lid, tag['text'], tag['category']))
             for i, form in enumerate(_forms(entry), 1):
                 # rank is not valid in FORM_QUERY for external forms
                 rank = -1 if _is_external(form) else i
                 for tag in form.get('tags', []):
                     tags.append(
-                        (eid, lid, form.get('id'), rank, tag['text'], tag['category'])
+                        (eid, lid, form.get('id'), rank, lexid,
+                         tag['text'], tag['category'])
                     )
         cur.executemany(query, tags)
         progress.update(len(tags))
